@@ -350,9 +350,26 @@ class C12(AssignCase):
         return assign.neox_enum(tier) + assign.hashseed_plans('neox')
 
     def gen(self, rng: random.Random, tier: str) -> dict[str, Any]:
-        from simkfac import assign
+        from simkfac import assign, neox
 
+        if rng.random() < 0.12:
+            # the assignment as a running job gets it: built by
+            # GPTNeoXKFACPreconditioner on every simulated rank under a
+            # launcher environment, one training step
+            plan = neox.gen_neox_plan(rng, tier, restarts=0.0)
+            plan['ops'] = [o for o in plan['ops'] if o['op'] == 'train'][:1]
+            plan['sim']['local_size'] = rng.choice([1, 2, 2, 4])
+            return plan
         return assign.gen_neox_assignment(rng, tier)
+
+    def evaluate(self, plan: dict[str, Any], tapes: Any = None) -> Outcome:
+        if plan['kind'] != 'neox':
+            return super().evaluate(plan, tapes)
+        oc = C11().evaluate_all(plan, tapes)
+        oc.violations = [v for v in oc.violations if 'C12' in v['props']]
+        oc.nontrivial = [f'job/{plan["pipe"]}x{plan["data"]}x{plan["model"]}'
+                         f'/{plan["sim"].get("local_size")}']
+        return oc
 
 
 class C20(BaseCase):
